@@ -183,6 +183,8 @@ XmlElement::XmlElement(istream& ifs, int subidx, XmlElement *parent, int txtline
 			else
 				++root_->line_; // drop through
 		case '\r':
+			if (state == otag && !tmpotag.empty())	// a line break after the tag name separates it from the attributes
+				state = oattr;
 			continue;
 		default:
 			break;
